@@ -72,8 +72,13 @@ func Opaque(g *cfgq.Graph, understood func(cfgq.Fact) bool, objs ...types.Object
 		if !direct(rhs) {
 			return false
 		}
-		lib := true
+		lib, calls := true, 0
 		core.InspectAll(rhs, func(m ast.Node) bool {
+			if c, isCall := m.(*ast.CallExpr); isCall {
+				if tv, isConv := info.Types[c.Fun]; !isConv || !tv.IsType() {
+					calls++
+				}
+			}
 			if _, isLit := m.(*ast.FuncLit); isLit {
 				lib = false // a closure over the tracked value: what it tests is not visible here
 			}
@@ -95,7 +100,25 @@ func Opaque(g *cfgq.Graph, understood func(cfgq.Fact) bool, objs ...types.Object
 			}
 			return true
 		})
-		return !lib
+		// a view of the tracked value (a slice, an element, a conversion of it) carries its content
+		view := false
+		if calls == 0 {
+			e := ast.Unparen(rhs)
+			for {
+				if c, ok := e.(*ast.CallExpr); ok && len(c.Args) == 1 {
+					if tv, isConv := info.Types[c.Fun]; isConv && tv.IsType() {
+						e = ast.Unparen(c.Args[0])
+						continue
+					}
+				}
+				break
+			}
+			switch e.(type) {
+			case *ast.SliceExpr, *ast.IndexExpr, *ast.Ident, *ast.StarExpr:
+				view = true
+			}
+		}
+		return !lib || view
 	}
 	return func(b *cfg.Block, f cfgq.Fact) bool {
 		if understood != nil && understood(f) {
